@@ -29,8 +29,10 @@ import tr_rect  # noqa: E402
 REPO = os.environ.get("EG_REPO", "/repo")
 LEAN = os.path.join(V, "lean")
 PROPS = os.path.join(LEAN, "EG", "Props", "C16", "Generated.lean")
+PROPS_POINTS = os.path.join(LEAN, "EG", "Props", "C16", "GeneratedPoints.lean")
 RECT = "core/src/primitives/rectangle/mod.rs"
 POINT = "core/src/geometry/point.rs"
+POINTS = "core/src/primitives/rectangle/points.rs"
 
 # (name, kind, file, old text, new text, theorems expected to break (subset check) )
 CASES = [
@@ -90,9 +92,35 @@ CASES = [
      "                        self_bottom_right.component_min(other_bottom_right),\n                    );\n                }\n            }",
      "                        self_bottom_right.component_min(other_bottom_right),\n                    );\n                } else {\n                    return Rectangle::zero();\n                }\n            }",
      []),
-    ("center: a `while` loop (outside the Rust subset)", "unknown", RECT,
+    # the iterator (points.rs; these theorems live in GeneratedPoints.lean, which is re-checked against the
+    # regenerated file with Generated.lean's build output as it is: the cases below only touch points.rs)
+    ("Points::next: the row start is not restored (`self.x.start = self.x_start` dropped)", "mutation", POINTS,
+     "            self.y.next();\n            self.x.start = self.x_start;\n",
+     "            self.y.next();\n",
+     ["Iterator_next_fuel_src_eq_model"]),
+    ("Points::next: yields (y, x) instead of (x, y)", "mutation", POINTS,
+     "return Some(Point::new(x, self.y.start));",
+     "return Some(Point::new(self.y.start, x));",
+     ["Iterator_next_fuel_src_eq_model"]),
+    ("Points::new: rows and columns swapped", "mutation", POINTS,
+     "        let x = rectangle.columns();\n        let y = rectangle.rows();\n",
+     "        let x = rectangle.rows();\n        let y = rectangle.columns();\n",
+     ["Points_new_src_eq_model"]),
+    ("Points::new: the zero-size shortcut removed", "mutation", POINTS,
+     "        if rectangle.is_zero_sized() {\n            return Self::empty();\n        }\n",
+     "",
+     ["Points_new_src_eq_model"]),
+    ("Points::next: `if let` written as a `match`, loop condition via a local", "harmless", POINTS,
+     "            if let Some(x) = self.x.next() {\n                return Some(Point::new(x, self.y.start));\n            }\n",
+     "            match self.x.next() {\n                Some(x) => {\n                    return Some(Point::new(x, self.y.start));\n                }\n                None => (),\n            }\n",
+     []),
+    ("Points::new: the two independent lets reordered", "harmless", POINTS,
+     "        let x = rectangle.columns();\n        let y = rectangle.rows();\n",
+     "        let y = rectangle.rows();\n        let x = rectangle.columns();\n",
+     []),
+    ("center: a `for` loop (outside the Rust subset)", "unknown", RECT,
      "        self.top_left + center_offset(self.size)\n",
-     "        let mut k = 0;\n        while k < 1 {\n            k += 1;\n        }\n        self.top_left + center_offset(self.size)\n",
+     "        for _k in 0..1 {}\n        self.top_left + center_offset(self.size)\n",
      []),
     ("bottom_right: a method the prelude does not know (`wrapping_add`)", "unknown", RECT,
      "if self.size.width > 0 && self.size.height > 0 {",
@@ -117,7 +145,7 @@ def list_theorems(path):
 
 def main():
     only = sys.argv[1:]
-    rc, out = run(["lake", "build", "EG.Props.C16.Generated"], cwd=LEAN)
+    rc, out = run(["lake", "build", "EG.Props.C16.Generated", "EG.Props.C16.GeneratedPoints"], cwd=LEAN)
     if rc != 0:
         print("the unchanged tree does not build EG.Props.C16.Generated:\n" + out[-2000:])
         return 2
@@ -130,6 +158,7 @@ def main():
         print("cannot create the scratch worktree:", out)
         return 2
     theorems = list_theorems(PROPS)
+    theorems_points = list_theorems(PROPS_POINTS)
     bad = 0
     try:
         # baseline: the scratch copy translates to exactly the committed generated file
@@ -170,14 +199,15 @@ def main():
                 broken.add("(generated file does not compile: " + out1.strip().splitlines()[0][:160] + ")")
             else:
                 env2 = dict(os.environ, LEAN_PATH=os.path.join(gen_dir, "lib") + ":" + lean_path)
-                rc2, out2 = run(["lean", PROPS], env=env2, cwd=LEAN)
-                for m in re.finditer(r":(\d+):\d+: error", out2):
-                    ln = int(m.group(1))
-                    nm = None
-                    for (n, l) in theorems:
-                        if l <= ln:
-                            nm = n
-                    broken.add(nm or f"line {ln}")
+                for (pf, ths) in ((PROPS, theorems), (PROPS_POINTS, theorems_points)):
+                    rc2, out2 = run(["lean", pf], env=env2, cwd=LEAN)
+                    for m in re.finditer(r":(\d+):\d+: error", out2):
+                        ln = int(m.group(1))
+                        nm = None
+                        for (n, l) in ths:
+                            if l <= ln:
+                                nm = n
+                        broken.add(nm or f"{os.path.basename(pf)} line {ln}")
             if kind == "mutation":
                 ok = (not failed) and all(e in broken for e in expect)
             elif kind == "harmless":
